@@ -4,7 +4,7 @@
    through the real MAC-layer encoders against the local encoder model. *)
 From Coq Require Import List NArith ZArith Bool String.
 From LW Require Export Base.Outcome Band.Channels.
-From LW Require Import Band.ChannelsSpec Band.Planner Band.CrossLayer.
+From LW Require Import Band.ChannelsSpec Band.Planner Band.PlannerSpec Band.CrossLayer.
 From LWGen Require Import ChannelsGen.
 Import ListNotations.
 Open Scope Z_scope.
@@ -24,8 +24,34 @@ Inductive probe :=
 | PIdx (f : Z) (d : bool) (o : outcome Z)
 | PIdxDR (f dr : Z) (o : outcome Z).
 
+(* compact LinkADRReq payload for case files: DataRate TXPower ChMask(value) ChMaskCntl NbRep *)
+Definition P (dr txp mask cntl nbrep : N) : payload :=
+  mkPayload (Z.of_N dr) (Z.of_N txp) (val_bits 16 (Z.of_N mask)) (Z.of_N cntl) (Z.of_N nbrep).
+
+(* one event of a trace: the state-changing calls AND the observation calls are
+   the alphabet; every observation is made on the same long-lived band instance
+   at that position of the trace and is compared with the model state at that
+   position (the model is pure: an observation never changes the state) *)
+Inductive ev :=
+| EOp (o : op) (r : outcome unit)
+(* one index-list accessor: 0 all, 1 standard, 2 custom, 3 enabled, 4 disabled *)
+| EIdx (k : N) (l : list Z)
+(* the five index lists read back to back: all standard custom enabled disabled *)
+| ELists (all std cus en dis : list Z)
+| EProbe (p : probe)
+(* GetCFList for the v-th entry of [pversions] *)
+| ECF (v : nat) (o : option cflist)
+(* GetLinkADRReqPayloadsForEnabledUplinkChannelIndices dev, then the real apply
+   on the result, then channel count / enabled / custom lists *)
+| EPlan (dev : list Z) (o_plan : outcome (list payload)) (o_apply : outcome (list Z))
+        (o_n : Z) (o_en o_cus : list Z)
+(* every accessor (the observation of a CHist case) *)
+| ESnap (ob : obs) (probes : list probe).
+
 Inductive case :=
 | CHist (cfg : nat) (steps : list (op * outcome unit)) (ob : obs) (probes : list probe)
+(* a history with interleaved observations *)
+| CTrace (cfg : nat) (evs : list ev)
 (* one frequency-carrying MAC command: kind, inputs, band-own frequency?, bytes, decoded fields
      0 RXParamSetupReq [f; rx2dr]   1 NewChannelReq [chindex; f; maxdr; mindr]
      2 DLChannelReq [chindex; f]    3 BeaconFreqReq [f]   4 PingSlotChannelReq [f; dr]
@@ -37,6 +63,12 @@ Inductive case :=
 Definition default_st := mkSt false 0 0 [] [] [].
 Definition cfg_st (cfg : nat) : st :=
   match nth_error configs cfg with Some (_, _, _, s) => s | None => default_st end.
+
+Definition cfg_name (cfg : nat) : string :=
+  match nth_error configs cfg with Some (nm, _, _, _) => nm | None => EmptyString end.
+(* the two bands that override the LinkADRReq planner and its inverse *)
+Definition us_style (cfg : nat) : bool :=
+  String.eqb (cfg_name cfg) "US915" || String.eqb (cfg_name cfg) "AU915".
 
 Definition pversions := [PV_1_0_0; PV_1_0_1; PV_1_0_2; PV_1_0_3; PV_1_0_4; PV_1_1_0; PV_other].
 
@@ -130,43 +162,150 @@ Definition freq_kind_premise (lo hi : Z) (k : N) (ins : list Z) : bool :=
 
 Definition zs_eqb := outcome_eqb zlist_eqb.
 
+(* the complete observation [ob]/[probes] against the model state [s] *)
+Definition snap_model (s : st) (ob : obs) (probes : list probe) : bool :=
+  let n := zlen (o_all ob) in
+  zlist_eqb (get_uplink_channel_indices s) (o_all ob)
+  && zlist_eqb (get_standard_uplink_channel_indices s) (o_std ob)
+  && zlist_eqb (get_custom_uplink_channel_indices s) (o_cus ob)
+  && zlist_eqb (get_enabled_uplink_channel_indices s) (o_en ob)
+  && zlist_eqb (get_disabled_uplink_channel_indices s) (o_dis ob)
+  && list_eqb och_eqb (map (get_uplink_channel s) (zrange n)) (o_up ob)
+  && list_eqb channel_eqb (down s) (o_down ob)
+  && list_eqb ocf_eqb (map (get_cflist s) pversions) (o_cf ob)
+  && forallb (probe_model s) probes.
+
+(* the property on the observed values, given the initial configuration and the
+   calls made so far *)
+Definition snap_prop (s0 : st) (steps : list (op * outcome unit)) (ob : obs) (probes : list probe) : bool :=
+  let n := zlen (o_all ob) in
+  let t := ok_channels (o_up ob) in
+  let n0 := zlen (up s0) in
+  (* calls report errors exactly for unsupported additions and invalid indices; never panic *)
+  steps_prop (extra s0) n0 steps
+  (* index sets *)
+  && zlist_eqb (o_all ob) (zrange n)
+  && partition_of n (o_en ob) (o_dis ob)
+  && partition_of n (o_std ob) (o_cus ob)
+  && (Z.of_nat (List.length t) =? n)
+  && forallb (fun ic => Bool.eqb (enabled (snd ic)) (zin (fst ic) (o_en ob))
+                        && Bool.eqb (custom (snd ic)) (zin (fst ic) (o_cus ob)))
+             (combine (zrange n) t)
+  (* the band's own channels are never altered; additions are appended as custom *)
+  && extends (up s0) t
+  && list_eqb same_identity t (up s0 ++ added (extra s0) steps)
+  && list_eqb channel_eqb (o_down ob) (down s0 ++ added (extra s0) steps)
+  (* CFList content *)
+  && list_eqb ocf_eqb (o_cf ob) (map (spec_cflist (extra s0) (cfmin s0) (cfmax s0) t) pversions)
+  (* lookups and invalid indices *)
+  && forallb (probe_prop s0 t (o_down ob)) probes.
+
+(* ---- traces ------------------------------------------------------------- *)
+
+Definition payload_eqb (a b : payload) : bool :=
+  (p_dr a =? p_dr b) && (p_txp a =? p_txp b) && list_eqb Bool.eqb (p_mask a) (p_mask b)
+  && (p_cntl a =? p_cntl b) && (p_nbrep a =? p_nbrep b).
+Definition plan_eqb := outcome_eqb (list_eqb payload_eqb).
+Definition ozs_eqb := outcome_eqb zlist_eqb.
+
+Definition idx_model (s : st) (k : N) : list Z :=
+  match k with
+  | 0%N => get_uplink_channel_indices s
+  | 1%N => get_standard_uplink_channel_indices s
+  | 2%N => get_custom_uplink_channel_indices s
+  | 3%N => get_enabled_uplink_channel_indices s
+  | _ => get_disabled_uplink_channel_indices s
+  end.
+
+(* number of channels the band must have after the calls made so far: the
+   initial ones plus one per accepted AddChannel *)
+Definition expected_n (s0 : st) (steps : list (op * outcome unit)) : Z :=
+  zlen (up s0) + zlen (added (extra s0) steps).
+
+Definition index_in (n : Z) (i : Z) : bool := (0 <=? i) && (i <? n).
+Definition answer_inside {A} (n i : Z) (o : outcome A) : bool :=
+  match o with Ok _ => index_in n i | Err => negb (index_in n i) | _ => false end.
+
+(* what can be required of a single observation without the rest of the state:
+   index lists strictly ascending inside 0..n-1 (all = 0..n-1, standard = 0..n0-1,
+   custom = n0..n-1); index answers Ok exactly inside the table; lookups answer an
+   existing index or an error; a CFList has five entries / at least one 16-bit mask *)
+Definition idx_prop (n0 n : Z) (k : N) (l : list Z) : bool :=
+  ascending l && forallb (index_in n) l
+  && match k with
+     | 0%N => zlist_eqb l (zrange n)
+     | 1%N => zlist_eqb l (zrange n0)
+     | 2%N => zlist_eqb l (map (Z.add n0) (zrange (n - n0)))
+     | _ => true
+     end.
+
+Definition probe_light (s0 : st) (n : Z) (p : probe) : bool :=
+  match p with
+  | PUp i o => answer_inside n i o
+  | PDown i o => answer_inside (zlen (down s0) + (n - zlen (up s0))) i o
+  | PTxp i o => index_answer_ok Z.eqb (txp s0) i o
+  | PIdx _ _ o | PIdxDR _ _ o => match o with Ok i => index_in n i | Err => true | _ => false end
+  end.
+
+Definition cf_light (o : option cflist) : bool :=
+  match o with
+  | None => true
+  | Some (CFChannels fs) => (List.length fs =? 5)%nat
+  | Some (CFMasks ms) => negb (List.length ms =? 0)%nat && forallb (fun m => (List.length m =? 16)%nat) ms
+  end.
+
+Definition target_obs (n : Z) (en cus dev : list Z) : list Z :=
+  filter (fun i => zin i en && (negb (zin i cus) || zin i dev)) (zrange n).
+
+(* walks the events; [s] = model state, [steps] = calls so far (reversed);
+   returns (model_ok, prop_ok) *)
+Fixpoint trace_go (us : bool) (s0 s : st) (steps : list (op * outcome unit)) (evs : list ev) : bool * bool :=
+  match evs with
+  | [] => (true, steps_prop (extra s0) (zlen (up s0)) (rev steps))
+  | e :: rest =>
+    let n := expected_n s0 steps in
+    let '(s', steps', m, p) :=
+      match e with
+      | EOp o r => let sr := step s o in (fst sr, (o, r) :: steps, outcome_eqb unit_eqb (snd sr) r, negb (is_panic r))
+      | EIdx k l => (s, steps, zlist_eqb (idx_model s k) l, idx_prop (zlen (up s0)) n k l)
+      | ELists all std cus en dis =>
+        (s, steps,
+         zlist_eqb (get_uplink_channel_indices s) all && zlist_eqb (get_standard_uplink_channel_indices s) std
+         && zlist_eqb (get_custom_uplink_channel_indices s) cus && zlist_eqb (get_enabled_uplink_channel_indices s) en
+         && zlist_eqb (get_disabled_uplink_channel_indices s) dis,
+         zlist_eqb all (zrange n) && partition_of n en dis && partition_of n std cus
+         && idx_prop (zlen (up s0)) n 1 std && idx_prop (zlen (up s0)) n 2 cus)
+      | EProbe pr => (s, steps, probe_model s pr, probe_light s0 n pr)
+      | ECF v o => (s, steps, ocf_eqb (get_cflist s (nth v pversions PV_other)) o, cf_light o)
+      | EPlan dev o_plan o_apply o_n o_en o_cus =>
+        let pls := match o_plan with Ok l => l | _ => [] end in
+        (s, steps,
+         plan_eqb (plan us 16 s dev) o_plan && ozs_eqb (apply us 16 s dev pls) o_apply
+         && (zlen (up s) =? o_n) && zlist_eqb (get_enabled_uplink_channel_indices s) o_en
+         && zlist_eqb (get_custom_uplink_channel_indices s) o_cus,
+         is_ok o_plan && negb (is_panic o_apply) && (o_n =? n)
+         && (if in_range o_n dev || (negb us && (o_n <=? 256) && in_range 256 dev)
+             then ozs_eqb o_apply (Ok (target_obs o_n o_en o_cus dev)) else true)
+         && (if in_range o_n dev && (o_n <=? 128)
+             then forallb encodable pls && (Z.of_nat (List.length pls) <=? blocks 16 o_n + 1) else true))
+      | ESnap ob probes => (s, steps, snap_model s ob probes, snap_prop s0 (rev steps) ob probes)
+      end in
+    let r := trace_go us s0 s' steps' rest in
+    (m && fst r, p && snd r)
+  end.
+
 Definition check (c : case) : N :=
   match c with
   | CHist cfg steps ob probes =>
     let s0 := cfg_st cfg in
     let ops := map fst steps in
     let s := run s0 ops in
-    let n := zlen (o_all ob) in
-    let t := ok_channels (o_up ob) in
-    let n0 := zlen (up s0) in
-    code (list_eqb (outcome_eqb unit_eqb) (run_outcomes s0 ops) (map snd steps)
-          && zlist_eqb (get_uplink_channel_indices s) (o_all ob)
-          && zlist_eqb (get_standard_uplink_channel_indices s) (o_std ob)
-          && zlist_eqb (get_custom_uplink_channel_indices s) (o_cus ob)
-          && zlist_eqb (get_enabled_uplink_channel_indices s) (o_en ob)
-          && zlist_eqb (get_disabled_uplink_channel_indices s) (o_dis ob)
-          && list_eqb och_eqb (map (get_uplink_channel s) (zrange n)) (o_up ob)
-          && list_eqb channel_eqb (down s) (o_down ob)
-          && list_eqb ocf_eqb (map (get_cflist s) pversions) (o_cf ob)
-          && forallb (probe_model s) probes)
-         ((* calls report errors exactly for unsupported additions and invalid indices; never panic *)
-          steps_prop (extra s0) n0 steps
-          (* index sets *)
-          && zlist_eqb (o_all ob) (zrange n)
-          && partition_of n (o_en ob) (o_dis ob)
-          && partition_of n (o_std ob) (o_cus ob)
-          && (Z.of_nat (List.length t) =? n)
-          && forallb (fun ic => Bool.eqb (enabled (snd ic)) (zin (fst ic) (o_en ob))
-                                && Bool.eqb (custom (snd ic)) (zin (fst ic) (o_cus ob)))
-                     (combine (zrange n) t)
-          (* the band's own channels are never altered; additions are appended as custom *)
-          && extends (up s0) t
-          && list_eqb same_identity t (up s0 ++ added (extra s0) steps)
-          && list_eqb channel_eqb (o_down ob) (down s0 ++ added (extra s0) steps)
-          (* CFList content *)
-          && list_eqb ocf_eqb (o_cf ob) (map (spec_cflist (extra s0) (cfmin s0) (cfmax s0) t) pversions)
-          (* lookups and invalid indices *)
-          && forallb (probe_prop s0 t (o_down ob)) probes)
+    code (list_eqb (outcome_eqb unit_eqb) (run_outcomes s0 ops) (map snd steps) && snap_model s ob probes)
+         (snap_prop s0 steps ob probes)
+  | CTrace cfg evs =>
+    let s0 := cfg_st cfg in
+    let r := trace_go (us_style cfg) s0 s0 [] evs in
+    code (fst r) (snd r)
   | CFreq k ins own lo hi o_enc o_dec =>
     let m := freq_kind_model k ins in
     let oe := omap (map Z.of_N) o_enc in
